@@ -194,7 +194,9 @@ def gen_mpi_case(rng):
     dim = int(rng.integers(1, 3))
     pts = base.gen_points(rng, n) if dim > 1 else [[int(x)] for x in rng.choice(np.arange(0, 9), size=n, replace=False)]
     return {'kind': 'mpi_hybrid', 'X': pts, 'W': W, 'n_clusters': 2 if n < 5 else int(rng.integers(2, 4)),
-            'n_iters': 3, 'seed': int(rng.integers(0, 2 ** 31)), 'metric': 'manhattan',
+            'n_iters': 3, 'seed': int(rng.integers(0, 2 ** 31 - 8)), 'metric': 'manhattan',
+            # the library's contract: rank 0 draws, the others receive - so ranks may hold DIFFERENT generators
+            'rs_per_rank': bool(rng.random() < 0.5),
             'dtype': str(rng.choice(['int64', 'int32', 'float64']))}
 
 
@@ -204,13 +206,18 @@ def check_mpi_case(ctx, case):
     Xf = np.array(case['X'], dtype=float)
     W, k, seed = case['W'], case['n_clusters'], case['seed']
     n = len(X)
-    ctx.case(case, nontrivial=True, tags=['mpi_hybrid', 'mpi-uneven-striping', 'ranks=%d' % W])
+    per_rank = bool(case.get('rs_per_rank'))
+    ctx.case(case, nontrivial=True, tags=['mpi_hybrid', 'mpi-uneven-striping', 'ranks=%d' % W,
+                                          'mpi-rng-per-rank-different' if per_rank else 'mpi-rng-same-int-seed'])
+
+    def rs_of(r):
+        return np.random.RandomState(seed + r) if per_rank else seed
     fail = lambda what: ctx.violation('hybrid(mpi_mode=True) on %d ranks: %s' % (W, what), dict(case))  # noqa: E731
     prev = None
     for T in range(0, case['n_iters'] + 1):
         with base.quiet_logs():
             res, errs, hung = _run_ranks(W, lambda r: hybrid.hybrid(
-                X[r::W], case['metric'], n_clusters=k, n_iters=T, random_state=seed, mpi_mode=True))
+                X[r::W], case['metric'], n_clusters=k, n_iters=T, random_state=rs_of(r), mpi_mode=True))
         if hung:
             return fail('ranks deadlocked with %d sweeps' % T)
         e = next((e for e in errs if e is not None), None)
@@ -278,7 +285,8 @@ def run(ctx):
                 'cost-decreased', 'cost-unchanged', 'hybrid<=kcenters', 'warm-start-cost<=', 'model-agrees', 'large-n', 'center-index>=256', 'k>255', 'n>65536', 'family=containers', 'family=scaled', 'family=exact-ties',
                 'family=degenerate', 'family=reuse', 'family=config', 'pam-exact-tie-other-candidate', 'pam-exact-tie-with-label-swap',
                 'pam-accept-after-exact-tie', 'same-objects-reused', 'fed-back-rounds-agree', 'proposals=current-medoids',
-                'sweep-by-sweep-agrees', 'reproducible', 'mpi-uneven-striping', 'mpi-cost-decreased']
+                'sweep-by-sweep-agrees', 'reproducible', 'mpi-uneven-striping', 'mpi-cost-decreased',
+                'mpi-rng-per-rank-different', 'mpi-rng-same-int-seed']
         ctx.note('under_covered', [t for t in need if not ctx.tags.get(t)])
 
 
